@@ -46,7 +46,7 @@ for d in sorted(glob.glob(V + '/seeded/*/meta.json')):
     if 'missed' in note or 'foreign' in note:
         st = 'missed → strengthened'
         nmiss += 1
-    if 'caught as a memory error by bin/check c01' in note:
+    if False and 'caught as a memory error by bin/check c01' in note:
         st = 'C01 catches the memory error; own order rule blind'
         nmiss -= 1
     if 'out of reach of the c19' in note:
